@@ -288,17 +288,23 @@ def run_driver(prop, d, tier, seed, budget=None):
     env = goenv()
     if d.get("race"):
         env["GORACE"] = "halt_on_error=1 exitcode=66"
+    limit = d.get("timeout", 3000)
+    if tier == "quick" and budget is None:
+        limit = min(limit, d.get("quick_timeout", 600))
+    hung = False
     try:
         rc, out = sh([os.path.join(WORK, "drv_" + name), "-seed", str(seed), "-n", str(n), "-out", trace],
-                     timeout=d.get("timeout", 3000), env=env)
+                     timeout=limit, env=env)
     except subprocess.TimeoutExpired:
         # a driver that does not finish: some call into the implementation never
         # returned (deadlock, leaked semaphore, endless loop)
-        rc, out = 124, "the driver %s did not finish within %d s: a call into the implementation never returned" % (name, d.get("timeout", 3000))
+        hung = True
+        rc, out = 124, "the driver %s (seed %d, n %d) did not finish within %d s: a call into the implementation never returned (deadlock, leaked semaphore, endless loop)" % (name, seed, n, limit)
     res = {"driver": name, "n": n, "seed": seed, "trace": trace, "rc": rc, "out": out[-2000:],
            "failures": [], "divergences": [], "summary": {}, "wall_s": 0}
     if rc != 0:
         res["crashed"] = True
+        res["hung"] = hung
         return res
     res["summary"] = json.load(open(trace + ".summary.json"))
     pfx = tuple(d.get("monitors", [prop + "."]))
@@ -459,6 +465,7 @@ def check_property(prop, tier, seed):
     dist = {}
     monitors = {}
     incoq_ev = []
+    hung_drivers = set()
     if drv_broken is None and model_broken is None:
         for d in cfg["drivers"]:
             r = run_driver(prop, d, tier, seed)
@@ -466,8 +473,13 @@ def check_property(prop, tier, seed):
             if r.get("crashed"):
                 # the driver itself died: for C12-style properties that is the
                 # finding; otherwise the harness is broken
-                path = write_replay(prop, "driver-crash", {"driver": d["name"], "seed": seed, "n": r["n"], "output": r["out"]})
-                violations.append((path, "" if d.get("crash_is_violation") else " no-failing-input-found"))
+                path = write_replay(prop, "driver-hang" if r.get("hung") else "driver-crash",
+                                    {"driver": d["name"], "seed": seed, "n": r["n"], "output": r["out"]})
+                # a run that never returns is itself the failing schedule (replay = driver, seed, n)
+                violations.append((path, "" if (d.get("crash_is_violation") or r.get("hung")) else " no-failing-input-found"))
+                if r.get("hung"):
+                    hung_drivers.add(d["name"])
+                    break   # a definite violation; the other drivers would only wait for the same lock
                 continue
             s = r["summary"]
             total_eval += s.get("histories", 0)
